@@ -124,6 +124,14 @@ CHECKS["C20"] = dict(
    note="Trusted: vf/fake_redis.py (Redis hash/list/DEL/EXISTS/EXPIRE/SCAN/PUBLISH and RESP2 client-tracking-with-redirect contract, pottery views), vf/memfs.py; sequence bodies run concretely once the selectors are decoded. Outside: real Redis/redis-py/pottery, thread scheduling, longer sequences, JSONStore nested updates never re-assigned before a restart, the 'empty value = absent key' convention.",
    design="4/C20")
 
+CHECKS["C15"] = dict(
+   technique="CrossHair + z3 on the real token/callback/child-launch kernels; bounded whole-run model checking of parent/child and callback scenarios over the simulated broker",
+   text=("Tokens minted by the real apply_path are presented to the real SendTaskSuccess/SendTaskFailure handlers (symbolic event/instance ids): they decode to exactly (id+'.waitForTaskToken', reply queue); ill-formed, truncated and forged tokens and missing members are answered 400 and send nothing. "
+         "handle_rpcmessage_response (callback vs ordinary reply, duplicate callbacks), handle_sfn_response (Output as JSON for :2, as string otherwise; failed child => error) and asl_service_states_startExecution (invalid combinations fail the task; routing and correlation id per form) are decided over all selector combinations. "
+         "Whole runs: parent/child pairs (child succeeds, fails, outlives the parent's timeout; parent in a Parallel branch) for every integration form and callback streams (valid, duplicate, forged-then-valid, ordinary reply first, failure, forged only) under every schedule inside the bound."),
+   note=S2NOTE + " Trusted additionally: vh_c10's request/jsonify driver. Known finding: tokens are not authenticated (well-formed forged tokens are accepted). Outside: grandchildren, more than one concurrent child, instance ids containing ':'.",
+   design="4/C15")
+
 NOT_YET = {}
 
 def main():
